@@ -173,7 +173,9 @@ def gen_expr(r, cls, depth=1, positive=False):
         # casts are applied to atoms only
         return ("cast", atom(r))
     if cls == "tern":
-        return ("tern", operand(r, 4, depth), operand(r, 3, depth), operand(r, 3, depth))
+        # a conditional nested in the MIDDLE operand (`c ? a ? 1 : 2 : 3`, valid C) is not understood by the OKL
+        # expression parser (inside an attribute argument the failure is even a NULL dereference); steer: parenthesise
+        return ("tern", operand(r, 4, depth), operand(r, 4, depth), operand(r, 3, depth))
     op = r.choice(CLASS_OPS[cls])
     lv = BIN_LEVEL[op]
     left = operand(r, lv, depth)
@@ -410,7 +412,7 @@ int main() {
       emu::print("ref", seq);
       std::vector<emu::Tuple> sorted = seq; emu::canon(sorted);
       for (int m = 0; m < k.n; ++m) {
-        emu::visited.clear(); emu::huge = false;
+        emu::visited.clear(); emu::huge = false; emu::lastInner[0] = 0;
         bool exc = false;
         try { k.entries[m].run(v); } catch (...) { exc = true; }
         std::vector<emu::Tuple> got = emu::visited;
@@ -422,6 +424,7 @@ int main() {
         else if (emu::huge) std::printf("%%s HUGE\n", k.entries[m].mode);
         else if (got == (ordered ? seq : sorted)) std::printf("%%s =\n", k.entries[m].mode);
         else { std::string tag = k.entries[m].mode; emu::print(tag.c_str(), got); }
+        if (emu::lastInner[0]) std::printf("%%%%dims %%s %%lld %%lld %%lld\n", k.entries[m].mode, emu::lastInner[0], emu::lastInner[1], emu::lastInner[2]);
       }
       std::fflush(stdout);
     }
@@ -488,6 +491,9 @@ class Emu:
                 f = l[2:].split()
                 cur = (int(f[0]), tuple(int(x) for x in f[1:8]))
                 res[cur] = {}
+            elif l.startswith("%dims ") and cur is not None:
+                f = l.split()
+                res[cur]["%dims " + f[1]] = tuple(int(x) for x in f[2:5])
             elif cur is not None:
                 tag, _, rest = l.partition(" ")
                 if rest in ("=", "HUGE", "EXC", "RUNAWAY"):
@@ -715,6 +721,38 @@ def run_cases(ck, hb, db, cases, label, batch=60, hist=8, text=True):
         if (oracles or impl_obs) and len(ck.violations) < 10:
             ck.report_failure(label, [c.op, "V " + vals_line(v)], impl_obs or ["(as the model)"], model_obs or ["(as the implementation)"],
                               [compress_oracles(oracles)] if oracles else [])
+    # ---- declared vs. actual work-group size (a CUDA/HIP launch with more threads per block than
+    #      __launch_bounds__, or an OpenCL launch whose local size differs from reqd_work_group_size, fails:
+    #      no iteration runs at all on the real device)
+    nb = 0
+    for c in runnable:
+        decl = {}
+        for m in ("cuda", "hip"):
+            mm = re.search(r"__launch_bounds__\((\d+)\)", sources[c.kid].get(m, ""))
+            if mm:
+                decl[m] = int(mm.group(1))
+        mm = re.search(r"reqd_work_group_size\((\d+),(\d+),(\d+)\)", sources[c.kid].get("opencl", ""))
+        if mm:
+            decl["opencl"] = tuple(int(x) for x in mm.groups())
+        if not decl:
+            continue
+        nb += 1
+        for v in c.values:
+            key = (c.kid, tuple(v[x] for x in VARS))
+            r_ = results.get(key, {})
+            bad = []
+            for m, d in decl.items():
+                dims = r_.get("%dims " + m)
+                if not dims:
+                    continue
+                if m == "opencl" and tuple(dims) != d:
+                    bad.append("opencl: local size %s but the kernel requires reqd_work_group_size%s" % (tuple(dims), d))
+                if m != "opencl" and dims[0] * dims[1] * dims[2] > d:
+                    bad.append("%s: %d threads per block but the kernel is declared __launch_bounds__(%d)" % (m, dims[0] * dims[1] * dims[2], d))
+            if bad and len(ck.violations) < 10:
+                ck.report_failure(label, [c.op, "V " + vals_line(v)], ["(launch would fail on the device)"], ["(n/a)"], ["; ".join(bad)])
+                break
+    C["kernels_with_declared_group_size_" + label] = nb
     C["value_tuples_" + label] = C.get("value_tuples_" + label, 0) + len(keys)
     C["nonempty_runs_" + label] = C.get("nonempty_runs_" + label, 0) + nonempty
     ck.cov["distinct_nontrivial"] += distinct
